@@ -208,8 +208,27 @@ class Snapshot:
         return val
 
 
+def instants(a, b):
+    """Run-time stand-in for "every instant of [a, b]": the end points and the millisecond grid between."""
+    if b < a:
+        return
+    yield a
+    step = timedelta(milliseconds=1)
+    half = timedelta(microseconds=500)
+    t = a
+    n = 0
+    while t + half <= b and n < 2000:
+        yield t + half
+        t = t + step
+        if t <= b:
+            yield t
+        n += 1
+    yield b
+
+
 def spec_globals(modnames):
-    g = {"timedelta": timedelta, "datetime": datetime, "timezone": timezone}
+    g = {"timedelta": timedelta, "datetime": datetime, "timezone": timezone, "instants": instants,
+         "EPOCH": EPOCH, "fresh": lambda x: True, "allocated": lambda x: True}
     for m in modnames:
         mod = importlib.import_module(m)
         for k, v in vars(mod).items():
@@ -221,8 +240,10 @@ def spec_globals(modnames):
 def run_case(fn, contract, args, glob, clauses=None):
     """Run fn(**args); returns dict(pre_ok, exception, failed=[(kind, index, text)], result)."""
     out = {"pre_ok": True, "failed": [], "exception": None}
+    ensures = contract.get("native_ensures") if contract.get("native_ensures") is not None else contract["ensures"]
+    requires = contract.get("native_requires") if contract.get("native_requires") is not None else contract["requires"]
     try:
-        for r in contract["requires"]:
+        for r in requires:
             if not eval(compile_clause(r), {**glob, **args}):
                 out["pre_ok"] = False
                 return out
@@ -255,11 +276,15 @@ def run_case(fn, contract, args, glob, clauses=None):
     env = dict(args)
     env["result"] = result
     out["result"] = describe(result)
-    for k, c in enumerate(contract["ensures"]):
+    for k, c in enumerate(ensures):
         if clauses is not None and k not in clauses:
             continue
         try:
             ok = eval(compile_clause(c), {**g2, **env})
+        except NameError as e:
+            # clause mentions ghost state (witness maps): not evaluable natively, skipped
+            out.setdefault("skipped_ghost_clauses", []).append(k)
+            continue
         except Exception as e:
             ok = True      # an evaluation error is a checker problem, never a verdict
             out.setdefault("clause_errors", []).append((k, repr(e)[:200]))
